@@ -51,8 +51,9 @@ __all__ = [
 T = TypeVar("T")
 
 
-class Priority(Enum):
-    """standard prioriy values for tasks"""
+class Priority(float, Enum):
+    """standard prioriy values for tasks.  The members are floats, so that they
+    can be used directly wherever a priority value is expected."""
 
     LOW = 10.0
     NORMAL = 0.0
